@@ -451,6 +451,7 @@ pub fn exec_step(s: &mut Sim, rng: &mut StdRng, st: &Value) -> bool {
         "wrmode" => {
             let m = match st["m"].as_str().unwrap_or("accept") {
                 "block" => WrMode::Block,
+                "budget" => WrMode::Budget(st["k"].as_u64().unwrap_or(1) as usize),
                 "err" => WrMode::Err,
                 "zero" => WrMode::Zero,
                 "max" => WrMode::Max(st["k"].as_u64().unwrap_or(1) as usize),
@@ -488,6 +489,12 @@ pub fn exec_step(s: &mut Sim, rng: &mut StdRng, st: &Value) -> bool {
             s.poll_ctx();
             s.quiet = false;
             s.emit(json!({"e": "markdisc", "secs": secs}));
+            true
+        }
+        "closemode" => {
+            let m = st["m"].as_u64().unwrap_or(0) as u8;
+            s.pipe.0.lock().unwrap().close_mode = m;
+            s.emit(json!({"e": "note", "closemode": m}));
             true
         }
         "handshake" => {
@@ -593,6 +600,8 @@ pub struct WalkCfg {
     pub unsolicited_pct: u32,
     pub chunk_pct: u32,
     pub burst_pct: u32,
+    /// writer modes that return Pending (block, budget) may be chosen
+    pub block_ok: bool,
 }
 
 pub fn profile(name: &str) -> WalkCfg {
@@ -621,6 +630,7 @@ pub fn profile(name: &str) -> WalkCfg {
         unsolicited_pct: 0,
         chunk_pct: 0,
         burst_pct: 0,
+        block_ok: true,
     };
     match name {
         "ops" => base,
@@ -681,6 +691,12 @@ fn ack_content(rng: &mut StdRng, pct: u32) -> Value {
     if rng.gen_range(0..100) < pct {
         for i in 0..rng.gen_range(1..3) {
             props.push(json!([0x26, format!("k{}", i), format!("v{}", rng.gen_range(0..50))]));
+        }
+        // an empty value (or an empty key) is legal, also as the very last bytes of the property section
+        match rng.gen_range(0..4) {
+            0 => props.push(json!([0x26, "detail", ""])),
+            1 => props.push(json!([0x26, "", "v"])),
+            _ => {}
         }
     }
     Value::Array(props)
@@ -989,8 +1005,8 @@ pub fn walk(p: &Params, cfg: &WalkCfg, seed: u64) -> (Vec<Value>, Vec<String>) {
                 }
             }
             "wr" => {
-                let m = *choose(&mut rng, &["block", "accept", "accept", "max"]);
-                let k = rng.gen_range(1..4);
+                let m = if cfg.block_ok { *choose(&mut rng, &["block", "accept", "accept", "max", "budget"]) } else { *choose(&mut rng, &["accept", "max", "max"]) };
+                let k = if m == "budget" { rng.gen_range(1..40) } else { rng.gen_range(1..4) };
                 do_step(&mut s, &mut rng, &mut script, json!({"a": "wrmode", "m": m, "k": k}));
             }
             "settle" => {
